@@ -184,11 +184,45 @@ enum Req {
     Take(Vec<u64>),
     Rows(Vec<u64>),
     Addr(Vec<u64>),
+    Scan(Vec<(u64, u64)>),
 }
 
 const WATCHDOG_S: u64 = 12;
 
+fn exec_scan(rt: &tokio::runtime::Runtime, ds: Dataset, cols: String, ranges: Vec<(u64, u64)>) -> Outcome {
+    use futures::TryStreamExt;
+    let r = catch_unwind(AssertUnwindSafe(|| {
+        let names: Vec<&str> = cols.chars().map(|c| col_name(c).unwrap()).collect();
+        rt.block_on(async {
+            let schema = Arc::new(ds.schema().project(&names)?);
+            let stream = futures::stream::iter(ranges.into_iter().map(|(s, e)| Ok(s..e)));
+            let st = ds.take_scan(Box::pin(stream), schema, 2);
+            let batches: Vec<RecordBatch> = st.try_collect().await?;
+            lance::Result::Ok(batches)
+        })
+    }));
+    match r {
+        Err(e) => Outcome::Panic(panic_msg(e)),
+        // the error passes through DataFusionError::External: only "an error" is compared
+        Ok(Err(_)) => Outcome::Err("invalid_input"),
+        Ok(Ok(bs)) => {
+            let mut rows = vec![];
+            for b in &bs {
+                match batch_rows(b, &cols) {
+                    Some(r) => rows.extend(r),
+                    None => return Outcome::Garbled,
+                }
+            }
+            Outcome::Rows(rows)
+        }
+    }
+}
+
 fn exec_req(rt: &tokio::runtime::Runtime, ds: Dataset, cols: String, req: Req) -> Outcome {
+    let req = match req {
+        Req::Scan(ranges) => return exec_scan(rt, ds, cols, ranges),
+        r => r,
+    };
     let r = catch_unwind(AssertUnwindSafe(|| {
         let names: Vec<&str> = cols.chars().map(|c| col_name(c).unwrap()).collect();
         let pr = ProjectionRequest::from_columns(names, ds.schema());
@@ -200,6 +234,7 @@ fn exec_req(rt: &tokio::runtime::Runtime, ds: Dataset, cols: String, req: Req) -
                     let plan = Arc::new(pr.into_projection_plan(Arc::new(ds.clone()))?);
                     TakeBuilder::try_new_from_addresses(Arc::new(ds.clone()), addrs, plan)?.execute().await
                 }
+                Req::Scan(_) => unreachable!(),
             }
         })
     }));
@@ -734,6 +769,26 @@ impl Prop for C15 {
                     }
                     _ => "bad".into(),
                 },
+                ["takescan", cols, starts, ends] => {
+                    let data_cols = !cols.is_empty() && cols.chars().all(|c| c == 'k' || c == 'x');
+                    match (data_cols, parse_nat_list(starts), parse_nat_list(ends), self.ds.is_some()) {
+                        (true, Some(starts), Some(ends), true) if starts.len() == ends.len() => {
+                            any_multi = true;
+                            let scan = self.real_scan().unwrap_or_default();
+                            let mut want: Vec<Option<SRow>> = vec![];
+                            for (s, e) in starts.iter().zip(ends.iter()) {
+                                for o in *s..*e {
+                                    want.push(scan.get(o as usize).cloned());
+                                }
+                            }
+                            let ranges: Vec<(u64, u64)> = starts.iter().copied().zip(ends.iter().copied()).collect();
+                            let got = self.run_req(cols, Req::Scan(ranges));
+                            self.judge("take_scan", cols, &want, &got, ln, &mut res.failures, &mut res.tags);
+                            got.show()
+                        }
+                        _ => "bad".into(),
+                    }
+                }
                 ["idx", ids] => match parse_nat_list(ids) {
                     Some(ids) => {
                         let r = catch_unwind(AssertUnwindSafe(|| self.real_index()));
@@ -1021,9 +1076,23 @@ impl C15 {
                     let keys = if stable { gen_keys(r, &id_valid, &id_invalid) } else { gen_keys(r, &addr_valid, &addr_invalid) };
                     lines.push(format!("takerows {cols} {}", show_nat_list(keys)));
                 }
-                7..=8 => {
+                7 => {
                     let keys = gen_keys(r, &addr_valid, &addr_invalid);
                     lines.push(format!("takeaddr {cols} {}", show_nat_list(keys)));
+                }
+                8 => {
+                    // take_scan over 1-3 ranges (overlapping, unordered, empty; ~10% reach one row beyond the end)
+                    let nr = r.range(1, 3);
+                    let mut starts = vec![];
+                    let mut ends = vec![];
+                    for _ in 0..nr {
+                        let s = r.below(total + 1);
+                        let e = (s + r.below(5)).min(total + if r.chance(1, 10) { 1 } else { 0 });
+                        starts.push(s.min(e));
+                        ends.push(e);
+                    }
+                    let c = *r.pick(&["k", "x", "kx", "xk"]);
+                    lines.push(format!("takescan {c} {} {}", show_nat_list(starts), show_nat_list(ends)));
                 }
                 _ => {
                     if stable {
